@@ -36,6 +36,15 @@ CLAIMED["C13"] = ("typestate by predicated path enumeration with loop unrolling 
          "go/ssa model; loop of handleUpdates unrolled to 2 (quick) / 3 (thorough) iterations; context, channel and mutex semantics assumed; grpc stream behaviour not analysed",
          "DESIGN.md §3 C13")
 
+CLAIMED["C17"] = ("predicated path enumeration (E4) with ordering atoms for the revision compare and per-iteration boolean atoms for the diff classification; write-effect scan (E5c)",
+         "Static, all-paths for target.Config: load gate (no handler/diff/store on any refused load; diff then store inside one critical section on accepted loads), strict revision order table evaluated at <,=,>, the per-target classification table of handleDiffs (delete / none / exactly one Update carrying the new configuration's request / one Add per leftover) evaluated per loop iteration, read-only diff, cloned Current, nil-guarded handlers. These are the single-step necessary conditions of 'replaying handler calls yields the current configuration'; the convergence over histories is not decided.",
+         "go/ssa model; proto.Equal/proto.Clone semantics assumed; loops unrolled to 2 iterations",
+         "DESIGN.md §3 C17")
+CLAIMED["C10"] = ("lockset / guarded-by analysis with call-site discharge of helper entry locksets, re-entrancy and release checks (E3); CFG dominance for the re-check (E2); call-graph reachability for visitor re-entry (E5)",
+         "Static, all-paths for ctree: guarded-by of leafBranch with same-node lock identity, lock coupling at every descent, re-check before child insertion inside the write epoch, no upgrade/re-entrant acquisition (incl. through callees), all locks released on all exits, module visitors never re-enter the tree, no upward pointer in Tree. Necessary conditions of race/deadlock freedom for every schedule. The delete family's reliance on the root lock only is reported as KNOWN-FINDING F6 (genuine race with leaf-handle updates), so the check does not claim race freedom for deletes; linearizability and query stability are not decided.",
+         "go/ssa model; sync.RWMutex is not re-entrant (Go spec); lock identity by SSA provenance (same node = same resolved value); loops unrolled",
+         "DESIGN.md §3 C10")
+
 NA_REASON = {}
 DEFAULT_NA = "check not built yet in this round (static rules designed in DESIGN.md section 3); not claimed until the rule runs"
 
